@@ -340,7 +340,10 @@ InfoWhy(gg, V, p, info) == LET f == V[p]  subs == {SubNode(gg, q) : q \in Active
   IF f.running \ subs # {} THEN "interrupt-while-node-running"
   ELSE IF Range(info.rerun) # f.aborted THEN "rerun-list-not-exact"
   ELSE IF Range(info.after) # f.afterDue THEN "after-list-not-exact"
-  ELSE IF Range(info.before) # ExpBefore(V, p) THEN "before-list-not-exact"
+  \* (an interrupt raised by a rerun request or a nested interrupt may or may not know the next tasks yet: it reports the due
+  \* before-nodes it is going to restore; whatever it leaves out stays unreported and must not start without a later interrupt)
+  ELSE IF (f.aborted # {} \/ ActiveSubs(V, p) # {}) /\ ~(Range(info.before) \subseteq (((DOMAIN f.pending) \cap IBefore(f.g)) \ f.cleared)) THEN "before-list-not-exact"
+  ELSE IF f.aborted = {} /\ ActiveSubs(V, p) = {} /\ Range(info.before) # ExpBefore(V, p) THEN "before-list-not-exact"
   ELSE IF DOMAIN info.sub # subs THEN "nested-interrupt-info-not-exact"
   ELSE IF Range(info.before) \cup Range(info.after) \cup Range(info.rerun) \cup DOMAIN info.sub = {} THEN "empty-interrupt"
   \* (a nested graph without state of its own reports the state it inherits from its parent: only the top level is judged)
